@@ -1954,6 +1954,12 @@ class Cluster(object):
         if self.profile_manager.distance(host) == HostDistance.IGNORED:
             return
 
+        if self.metadata.get_host(host.endpoint) is not host:
+            # the host was removed from the cluster while this down/up handling
+            # was still queued: a removed host must not be reconnected
+            log.debug("Not starting reconnector for removed host %s", host)
+            return
+
         schedule = self.reconnection_policy.new_schedule()
 
         # in order to not hold references to this Cluster open and prevent
